@@ -12,6 +12,7 @@ def run(ctx):
         "specification by arithmetic mod n. K4: per-letter annotation tracks follow the same interval list. K5: every "
         "feature part moves by k mod n with width, strand, refs, type and qualifiers intact. Carry-over: id, name and "
         "annotations reach the rebuilt record (description, dbxrefs and the feature id are reported as information only)."
+        ' no-derived-state: no query method of CircularRecord (nor anything it reaches through self, nor a memoising decorator) stores on the receiver.'
     )
     r.not_decided = ["records of length 0", "Seq slicing (T3)"]
     run_kernels(ctx, ["K3", "K4", "K3carry", "K5"], "C13")
